@@ -17,6 +17,7 @@ func cmdConsts() {
 	z("MaxStreamsPerChannel", int64(llo.MaxStreamsPerChannel))
 	z("MaxOutcomeChannelDefinitionsLength", int64(llo.MaxOutcomeChannelDefinitionsLength))
 	z("MaxAllowedBlocks", int64(mv1.MaxAllowedBlocks))
+	z("MaxReportCount", int64(llo.MaxReportCount)) // what the LLO plugin declares to libocr
 	// the observation length limits the Mercury plugins declare to libocr (unexported constants, read from the
 	// MercuryPluginInfo the real factories return)
 	for ver := 1; ver <= 4; ver++ {
